@@ -56,7 +56,9 @@ def main():
         for cfg in cfgs:
             n = min(3 * sum(cfg) + 60, 900)
             for sd in seeds:
-                reqs.append({"strategy": e["name"], "cfg": cfg, "seed": sd + 100 * vlib.seed(), "n": n})
+                # every other series in fractional volume units (quantities below one unit, as for fractional shares or coins)
+                reqs.append({"strategy": e["name"], "cfg": cfg, "seed": sd + 100 * vlib.seed(), "n": n,
+                             "volume_scale": (2.0 ** -13 if sd % 2 == 0 else 1.0)})
     wd = vlib.scratch("verif-c06-")
     try:
         path = os.path.join(wd, "reqs.ndjson")
